@@ -134,6 +134,17 @@ def shard(arg):
             kind, desc, want, got, r['exc'], r['final'][2]), dict(rep, cuts=[])))
       else:
         okc += 1
+        # flow control pausing the receivers in the middle of a read must not strand what was already read
+        for k in range(1, len(seq) + 1):
+          for cuts in ([], [len(payload) // 2]):
+            rp = segx.run_with_pause(kind, payload, k, cuts)
+            execs += 1
+            gotp = list(rp.sh['delivered'])
+            if rp.exc is not None or not same_log(gotp, want) or rp.transport.producerState != 'producing':
+              if len(bad) < 3:
+                bad.append(('pause-strands-data:' + kind, '%s %r: receivers paused during datapoint %d and resumed after the read: sent %r, '
+                            'delivered %r, exception %r, transport %s' % (kind, desc, k, want, gotp, rp.exc, rp.transport.producerState),
+                            dict(rep, cuts=cuts, pause_at=k)))
   return states, trans, execs, segs, okc, bad
 
 
@@ -186,6 +197,12 @@ def replay(path):
     return 0 if ok else 1
   stream = bytes.fromhex(rep['stream_hex'])
   seq = [(x[0],) + tuple(float(y) if isinstance(y, str) else y for y in x[1:]) for x in rep['sequence']]
+  if rep.get('pause_at'):
+    r = segx.run_with_pause(rep['kind'], stream, rep['pause_at'], rep.get('cuts') or [])
+    ok = same_log(list(r.sh['delivered']), expected(seq)) and r.exc is None
+    print('paused at datapoint %d -> delivered %r' % (rep['pause_at'], list(r.sh['delivered'])))
+    print('oracle:', 'holds' if ok else 'VIOLATED')
+    return 0 if ok else 1
   r = segx.run_cuts(rep['kind'], stream, rep.get('cuts') or [])
   whole = segx.run_cuts(rep['kind'], stream, [])
   print('cuts %r -> %r' % (rep.get('cuts'), r.observable()))
